@@ -262,3 +262,19 @@ End Respond.
 Arguments respond {Schema Features Ctx Doc Resp}.
 Arguments schema_obs_eq {Schema Features Doc Resp}.
 Arguments data_of {Resp}.
+
+(** ** beyond the canonical envelopes: the same JSON value as POST body and as socket payload *)
+Definition has_member (name : bytes) (l : list (bytes * json)) : bool :=
+  existsb (fun kv => key_is name (fst kv)) l.
+
+(** the members "query" and "operationName" occur at most once (in any letter case) *)
+Fixpoint single_string_members (l : list (bytes * json)) : bool :=
+  match l with
+  | [] => true
+  | (k, _) :: r =>
+      negb (key_is k_query k && has_member k_query r) &&
+      negb (key_is k_opname k && has_member k_opname r) &&
+      single_string_members r
+  end.
+
+Definition body_op (b : body) : op := {| o_query := b_query b; o_vars := b_vars b; o_opname := b_opname b |}.
